@@ -21,6 +21,9 @@ pub struct MultiCase {
     /// 0: free picks; 1: endpoints of an attack first; 2: one argument per component first
     pub mode: u8,
     pub picks: Vec<u16>,
+    /// seed and bias of the model-choosing SAT backend (see satwrap::Chooser)
+    #[serde(default)]
+    pub choice: (u64, u8),
 }
 
 /// A small framework with a list, or a list over a composite framework of 20-200 arguments.
@@ -117,6 +120,46 @@ impl Multi {
                         Err(p) => return Err(Failure::new(format!("{}/panic", sig), p)),
                         Ok(x) => x,
                     };
+                    // the same two questions with a SAT backend that returns other models than a
+                    // default-phase CDCL solver would (the answers may not depend on that choice)
+                    if distinct >= 2 || case.choice.0 % 4 == 0 {
+                        rec.evals(2);
+                        let r = guard(|| {
+                            let be = satwrap::choosy(case.choice.0, case.choice.1 % 3, 64);
+                            let shared = Shared::new(satwrap::DEFAULT_CAP);
+                            let mut s = SolverObj::new(af, kind, enc, satwrap::factory_with(&shared, &be));
+                            let with = if q == Q::DC { s.dc(&refs, true) } else { s.ds(&refs, true) };
+                            let shared2 = Shared::new(satwrap::DEFAULT_CAP);
+                            let mut s2 = SolverObj::new(af, kind, enc, satwrap::factory_with(&shared2, &be));
+                            let plain = if q == Q::DC { s2.dc(&refs, false).0 } else { s2.ds(&refs, false).0 };
+                            (with, plain)
+                        });
+                        let ((cw, ccert), cp) = match r {
+                            Err(p) => return Err(Failure::new(format!("{}/chosen-models/panic", sig), p)),
+                            Ok(x) => x,
+                        };
+                        if cp != expected {
+                            return Err(Failure::new(
+                                format!("{}/chosen-models/plain/got-{}-expected-{}", sig, cp, expected),
+                                format!("list {:?}; reference extensions {:?}", list, masks_to_vecs(&exts)),
+                            ));
+                        }
+                        if cw != expected {
+                            return Err(Failure::new(
+                                format!("{}/chosen-models/with-certificate/got-{}-expected-{}", sig, cw, expected),
+                                format!("list {:?}; reference extensions {:?}", list, masks_to_vecs(&exts)),
+                            ));
+                        }
+                        if let Some(c) = ccert {
+                            let m = lm.mask(&c).map_err(|m| Failure::new(format!("{}/chosen-models/foreign-or-duplicate-member", sig), m))?;
+                            if !witness_family.contains(&m) || (q == Q::DC) != (m & qm != 0) {
+                                return Err(Failure::new(
+                                    format!("{}/chosen-models/bad-certificate", sig),
+                                    format!("list {:?} certificate {:?} reference {:?}", list, mask_to_vec(m), masks_to_vecs(&witness_family)),
+                                ));
+                            }
+                        }
+                    }
                     let nt = distinct >= 2 && (differs_from_member || spans >= 2);
                     if nt {
                         let new = rec.nontrivial(&(case.gc.g.canonical(), case.gc.pres.kind(), q, sem, enc, list.to_vec()));
@@ -205,9 +248,10 @@ impl Multi {
             gen::pres(nmax),
             0u8..3,
             vec(any::<u16>(), 1..=3),
+            (any::<u64>(), 0u8..3),
         )
-            .prop_filter("needs an argument", |(g, _, _, _)| g.n >= 1)
-            .prop_map(|(g, pres, mode, picks)| MultiCase { gc: GraphCase { g, pres }, mode, picks })
+            .prop_filter("needs an argument", |(g, _, _, _, _)| g.n >= 1)
+            .prop_map(|(g, pres, mode, picks, choice)| MultiCase { gc: GraphCase { g, pres }, mode, picks, choice })
             .boxed()
     }
     fn enumerated_small(&self, tier: Tier) -> (Vec<MultiCase>, String) {
@@ -233,6 +277,7 @@ impl Multi {
                     v.push(MultiCase {
                         gc: GraphCase { g: g.clone(), pres: Pres::Direct { offset: 0, order_keys: vec![] } },
                         mode: 0,
+                        choice: (v.len() as u64, (v.len() % 3) as u8),
                         picks,
                     });
                 }
